@@ -51,6 +51,15 @@ def _flag(i: int, salt: int) -> int:
     return 8 if salt % 2 == 0 else FLAG_ROTATION[(i + salt) % len(FLAG_ROTATION)]
 
 
+_DENSE = {}
+
+
+def _dense(m, shot):
+    if "hr" not in _DENSE:
+        _DENSE["hr"] = m.HitResult(shot, [impl.make_row(time=i / 8.0, distance=m.Unit.Foot(i / 8.0), flag=8) for i in range(65)], False)
+    return _DENSE["hr"]
+
+
 def replay_case(chk: core.Check, case: dict, units) -> None:
     m = impl.pb()
     from py_ballisticcalc import helpers as H
@@ -90,6 +99,20 @@ def replay_case(chk: core.Check, case: dict, units) -> None:
                 chk.stratum("rows_in_mixed_display_units")
             hr = m.HitResult(shot, rows, False)
             q = val(q2)
+            if (sum(col) + q2) % 2 == 0 and emb == "plain":
+                # ANOTHER result (a much denser card) is looked up at the same distance just before: what a look-up leaves behind
+                # belongs to the result it was made on
+                chk.stratum("another_denser_result_looked_up_just_before")
+                dn = _dense(m, shot)
+                impl.outcome(dn.index_at_distance, U(q))
+                impl.outcome(dn.get_at_distance, m.Unit.Foot(1.0))
+            if (sum(col) + q2) % 3 != 2:
+                # the SAME result was asked at farther distances first (an inward range card; a danger space asked further out): the
+                # answer to this question is still the first row at or beyond it, counted from the muzzle
+                chk.stratum("same_result_asked_farther_out_first")
+                impl.outcome(hr.index_at_distance, U(val(q2 + 4)))
+                impl.outcome(hr.get_at_distance, U(val(q2 + 2)))
+                impl.outcome(hr.index_at_distance, U(val(q2 + 1)))
             entries = {
                 "HitResult.index_at_distance": lambda: hr.index_at_distance(U(q)),
                 "helpers.find_index_of_point_for_distance": lambda: H.find_index_of_point_for_distance(hr, q, U),
@@ -205,7 +228,7 @@ def run(chk: core.Check, replay=None) -> None:
         chk.traces += 1
     for c in cases[:: max(1, len(cases) // 5)][:5]:
         chk.sample(c)
-    chk.require_strata(["dist", "time", "near", "apex", "empty", "repeats", "sentinel", "rows_in_mixed_display_units", "rows_and_queries_one_ulp_apart", "near_midpoint_of_decimal_times", "near_midpoint_of_decimal_times_later_row_nearer"])
+    chk.require_strata(["dist", "time", "near", "apex", "empty", "repeats", "sentinel", "rows_in_mixed_display_units", "rows_and_queries_one_ulp_apart", "near_midpoint_of_decimal_times", "near_midpoint_of_decimal_times_later_row_nearer", "another_denser_result_looked_up_just_before", "same_result_asked_farther_out_first"])
     chk.rule.append("every non-decreasing sequence (len<=%d over 0..%d) x every (half-)integer query x every entry point, "
                     "generated by TLC from Gen_Lookup; non-trivial = sequence length >= 2; distinct by (op, sequence, "
                     "query, entry point, unit)" % (maxlen, maxval))
